@@ -471,9 +471,9 @@ pub fn run_schedule<Sc: Scenario>(sc: &Sc, prefix: &[usize], horizon: usize) -> 
             x.steps += 1;
             x.trace.push(info.label.clone());
             sc.after_step(&mut s, &info, &mut x);
-            // (whether a thread waiting in the kernel has already been recognised as blocked is a matter
-            // of timing, so only "exited or not" enters the fingerprint)
-            let mut fp: Vec<String> = ctl.snapshot().iter().map(|p| format!("{}@{}:{}", p.0, p.3, if p.1 == PState::Exited { "x" } else { "-" })).collect();
+            // per-participant progress counters only: when a thread that waits in the kernel (a join, a
+            // lock) is recognised as blocked or as exited is a matter of timing
+            let mut fp: Vec<String> = ctl.snapshot().iter().map(|p| format!("{}@{}", p.0, p.3)).collect();
             fp.sort(); // registration order of the participants is not deterministic
             x.fingerprints.insert(format!("{}|{}", fp.join(","), x.trace.len()));
             current = Some(actor);
